@@ -478,6 +478,10 @@ pub fn sink_rows(logv: &[Ev], tag: &str) -> (usize, Option<Vec<Vec<i64>>>) {
     (published, if published > 0 { Some(rows) } else { None })
 }
 
+/// The payload of the injected faults that do not carry a message.
+#[derive(Debug)]
+pub struct InjectedFailure(pub usize);
+
 /// Fault injection: panics when replica `replica` of its block is handed its `k`-th data element.
 #[derive(Clone)]
 pub struct PanicAt<Op: Operator> {
@@ -509,6 +513,11 @@ impl<Op: Operator> Operator for PanicAt<Op> {
             self.seen += 1;
             if self.seen == self.k {
                 log(Ev::Note("fault-fired", vec![self.coord.0 as i64, self.coord.1 as i64, self.coord.2 as i64]));
+                // user code fails in more than one way: half of the injected faults unwind with
+                // a payload that is not a string (`panic_any`, `resume_unwind` of an error value)
+                if (self.replica as usize + self.k) % 2 == 1 {
+                    std::panic::panic_any(InjectedFailure(self.k));
+                }
                 panic!("injected user-function failure");
             }
         }
